@@ -29,6 +29,10 @@ ASSUMPTIONS = [
     "only count and delegate",
     "follow-up probe: an unknown event type must be answered with EdzedUnknownEvent (not with a "
     "recursion error) by library blocks, 'ping' handled by probes",
+    "at quiescent points (after every external stimulus) the blocks' own busy flags "
+    "(_event_active, _fsm_event_active, _next_event - read if they exist) must be down, and an "
+    "output assignment of a block must never be re-entered for the same block outside its own "
+    "init step (structural invariants; they also see handlers invoked without event())",
 ]
 REQUIRED = {'events_entered': 2000, 'reentry_attempts_refused': 100, 'followups_ok': 2000,
             'harmless_stimuli': 500, 'legit_nested_fsm': 30, 'fsm_exit_action_reentry': 30, 'chained_out_of_timed_state': 20, 'filter_rejections': 100,
@@ -47,6 +51,7 @@ class Monitor:
         self.busy = {}          # block -> number of event() calls in progress
         self.depth = {}         # block -> handler nesting depth
         self.initing = {}       # block -> init_sblock in progress
+        self.assigning = {}     # block -> set_output calls in progress
         self.viol = None
         self.reentry_illegit = 0    # during the current stimulus
         self.handler_raised = 0
@@ -126,6 +131,34 @@ def install_patches():
             mon.busy[self] = nbusy
     edzed.SBlock.event = event
 
+    orig_set_output = edzed.SBlock.set_output
+
+    def set_output(self, value):
+        # an output assignment of a sequential block re-entered for the same block = the block
+        # is processing two events at once, whichever way the second one got in (this also sees
+        # handlers that were invoked without passing the event() entry point)
+        mon = MON
+        if mon is None:
+            return orig_set_output(self, value)
+        d = mon.assigning.get(self, 0)
+        if d and mon.initing.get(self, 0) > 0:
+            # an event looping back into a block from inside that block's own running init
+            # step: outcome unspecified (see the init recursion guard), not judged
+            mon.unspecified += 1
+        elif d:
+            mon.fail('nested-output-assignment',
+                     f"{self}: set_output({value!r}) entered while another output assignment of "
+                     "the same block (and its on_output events) is still in progress")
+        mon.assigning[self] = d + 1
+        try:
+            return orig_set_output(self, value)
+        finally:
+            mon.assigning[self] = d
+    edzed.SBlock.set_output = set_output
+    for cls in (edzed.Input, edzed.Counter, edzed.FSM, edzed.Repeat, edzed.OutputFunc):
+        # subclasses that do not override set_output inherit the wrapper automatically
+        assert cls.set_output is set_output, cls
+
     orig_init = simulator.Circuit.init_sblock
 
     def init_sblock(blk, full):
@@ -193,6 +226,8 @@ def gen(ctx):
                 b['opts']['exit_send'] = rng.choice(['none', 'none', 'none', 'b', 'a', 'c'])
             if b['kind'] == 'input':
                 b['opts']['initdef'] = rng.random() < 0.7
+                # persistent with a saved value: the block is initialised by restoring it
+                b['opts']['stored'] = rng.choice([None, None, 1, 2])
             if b['kind'] == 'probe':
                 b['opts']['fail'] = rng.random() < 0.06
             density = rng.choice([0.5, 1, 1, 1.5, 2])
@@ -205,6 +240,10 @@ def gen(ctx):
                 edge = {'to': j, 'via': rng.choice(via),
                         'filter': rng.choice([None, None, None, 'pass', 'reject', 'alt']),
                         'cond': rng.choice([None, None, None, 'tn', 'nt', 'tt'])}
+                if blocks[j]['kind'] in ('input', 'counter', 'fsm') and rng.random() < 0.06:
+                    # an event type the destination does not know: a harmless failure that is
+                    # reported through the whole chain of senders; nobody may stay locked
+                    edge['bogus'] = True
                 b['edges'].append(edge)
         # inputs without initdef need someone to initialise them: give them initdef if no inbound
         for i, b in enumerate(blocks):
@@ -306,6 +345,9 @@ def run_case(case, ctx):
     def mk_event(b, e, idx):
         dest = blocks[e['to']]
         etype = ETYPE_FOR[dest['kind']]
+        if e.get('bogus'):
+            etype = 'vf_nosuch_event'
+            ctx.count('unknown_event_edges')
         if e['cond'] == 'tn':
             etype = edzed.EventCond(etype, None)
         elif e['cond'] == 'nt':
@@ -347,6 +389,10 @@ def run_case(case, ctx):
                 created[i] = Probe(name, x_fwd=evs.get('fwd', []), x_n=[0], x_fail=b['opts'].get('fail'))
             elif k == 'input':
                 kw = {'initdef': 0} if b['opts']['initdef'] else {}
+                if b['opts'].get('stored') is not None:
+                    kw['persistent'] = True
+                    storage[f"<Input '{name}'>"] = b['opts']['stored']
+                    ctx.count('restored_inputs')
                 created[i] = edzed.Input(name, on_output=evs.get('on_output'),
                                          on_every_output=evs.get('on_every'), **kw)
             elif k == 'counter':
@@ -367,6 +413,7 @@ def run_case(case, ctx):
         return created
 
     outcome = {'stims': [], 'init_failed': None}
+    storage = {'edzed-stop-time': 0.0}
 
     async def drive(sim, created):
         for si, (j, what) in enumerate(case['stimuli']):
@@ -431,6 +478,15 @@ def run_case(case, ctx):
                 except Exception as err:
                     ok = False
                     r = err
+                # structural invariant at this quiescent point (no event is being handled now):
+                # the block's own "busy" flags must be down
+                flags = [f for f in ('_event_active', '_fsm_event_active')
+                         if getattr(b2, f, False) is True]
+                if getattr(b2, '_next_event', None) is not None:
+                    flags.append('_next_event')
+                if flags:
+                    ok = False
+                    r = f"busy flag(s) {flags} still set although no event is being handled"
                 if ok:
                     ctx.count('followups_ok')
                 else:
@@ -443,7 +499,7 @@ def run_case(case, ctx):
 
     MON = mon
     try:
-        out = harness.run_sim(build, drive)
+        out = harness.run_sim(build, drive, storage=storage)
     finally:
         MON = None
     if out['exc'] is not None and not isinstance(out['exc'], vloop.Deadlock):
@@ -460,6 +516,11 @@ def run_case(case, ctx):
             err = out['sim'].circuit.error
             if 'not initialized' in str(err):
                 ctx.count('uninitialised_input_cases')
+            elif isinstance(err, edzed.EdzedUnknownEvent) and any(
+                    e.get('bogus') for b in blocks for e in b['edges']):
+                # an init routine's output event hit the unknown event type: the error of the
+                # init routine fails the start (C05/C09 territory), nothing to judge here
+                ctx.count('unknown_event_during_init')
             else:
                 mon.fail('startup-failed-without-recursion', f"start failed: {err!r}")
     if mon.viol is not None:
